@@ -31,8 +31,12 @@ theorem index_refines_list_after_history (items : List Item) (isRoot isSr : Bool
     ((run s0 ops).lut n).Perm ((run s0 ops).items.filter (fun it => it.name == n)) :=
   index_refines_list ((Reachable.ctor hc).run ops) n
 
-/-- **find is exact**: on every reachable sequence `find(name)` succeeds and returns exactly the items
-currently in the sequence with that name … -/
+/-- **find is exact**: on every reachable sequence `find(name)` succeeds and returns exactly the items — the very
+objects (`Item` equality is identity, `obj` included) — currently in the sequence with that name …
+"Name" is the DICT KEY of the concept name (hash + `==`).  FULL STATEMENT of the property (names compared with `==`):
+`∀ n, find s n ~ s.items.filter (nameEq ·.name n)` — it holds iff `==` names have one key
+(`find_exact_for_equal_names_partial`), which `CodedConcept.__hash__` violates for the SRT / SCT alias pairs: open
+finding C14-alias-names-split-index, `counterexample_alias_names`. -/
 theorem find_exact {s : Seq} (h : Reachable s) (n : Nat) :
     ∃ r, find s n = .ok r ∧ r.items.Perm (s.items.filter (fun it => it.name == n)) := by
   obtain ⟨r, h1, _, h3, _⟩ := find_spec h.wf n
@@ -50,6 +54,35 @@ theorem find_once_each {s : Seq} (h : Reachable s) (n : Nat) :
   · rw [if_neg hx]
     exact List.count_eq_zero.mpr (fun hm => hx (by simpa using (List.mem_filter.mp hm).2))
 
+/-- PARTIAL (open finding C14-alias-names-split-index): with `nameEq` the `==` of concept names on dict keys, `find`
+returns exactly the items whose name is `==` the query PROVIDED `==` names have the same key (hash consistent with
+equality — property C17). -/
+theorem find_exact_for_equal_names_partial {s : Seq} (h : Reachable s) (nameEq : Nat → Nat → Bool)
+    (hrefl : ∀ a, nameEq a a = true) (hkey : ∀ a b, nameEq a b = true → a = b) (n : Nat) :
+    ∃ r, find s n = .ok r ∧ r.items.Perm (s.items.filter (fun it => nameEq it.name n)) := by
+  obtain ⟨r, h1, h2⟩ := find_exact h n
+  refine ⟨r, h1, ?_⟩
+  have : (fun it : Item => nameEq it.name n) = (fun it => it.name == n) := by
+    funext it
+    by_cases e : it.name = n
+    · subst e; simp [hrefl]
+    · have : nameEq it.name n = false := by
+        cases hh : nameEq it.name n
+        · rfl
+        · exact absurd (hkey _ _ hh) e
+      simp [this, e]
+  rw [this]; exact h2
+
+/-- COUNTEREXAMPLE (the witness of the open finding): keys 5 and 6 are `==` names (SRT T-B7000 / SCT 111002); a sequence
+holding one item under each; `find 5` returns one item although two items have a name `==` the query. -/
+theorem counterexample_alias_names :
+    let a : Item := { name := 5, rel := some 0, isContainer := false, hasContent := false, uid := 1, obj := 1 }
+    let b : Item := { name := 6, rel := some 0, isContainer := false, hasContent := false, uid := 2, obj := 2 }
+    let nameEq : Nat → Nat → Bool := fun x y => x == y || (x == 5 && y == 6) || (x == 6 && y == 5)
+    ∃ s r, construct [a, b] false true = .ok s ∧ find s 5 = .ok r ∧ r.items.length = 1 ∧
+      ([a, b].filter (fun it => nameEq it.name 5)).length = 2 := by
+  refine ⟨_, _, rfl, rfl, ?_, ?_⟩ <;> decide
+
 /-- The result of `find` is itself a consistent sequence with the same flags (one can go on with it). -/
 theorem find_result_consistent {s : Seq} (h : Reachable s) (n : Nat) :
     ∃ r, find s n = .ok r ∧ Reachable r ∧ r.isRoot = s.isRoot ∧ r.isSr = s.isSr := by
@@ -58,13 +91,14 @@ theorem find_result_consistent {s : Seq} (h : Reachable s) (n : Nat) :
   have := Reachable.step (.intoFind n) h
   simpa [step, h1, intoRes] using this
 
-/-- **index agrees with the list**: the first position of the item in the list, ValueError iff absent. -/
+/-- **index agrees with the list**: the first position whose item is `==` x (`Item.eqv` = `Dataset.__eq__`, the
+comparison `list.index` makes; an equal copy counts), ValueError iff no item of the list is `==` x. -/
 theorem index_agrees {s : Seq} (h : Reachable s) (x : Item) :
-    index s x = if x ∈ s.items then .ok (s.items.idxOf x) else .error .value :=
+    index s x = if s.items.any (fun y => y.eqv x) then .ok (s.items.findIdx (fun y => y.eqv x)) else .error .value :=
   index_spec h.wf.inv x
 
 /-- **`in` agrees with the list**. -/
-theorem contains_agrees {s : Seq} (h : Reachable s) (x : Item) : contains s x = decide (x ∈ s.items) :=
+theorem contains_agrees {s : Seq} (h : Reachable s) (x : Item) : contains s x = s.items.any (fun y => y.eqv x) :=
   contains_spec h.wf.inv x
 
 /-- **get_nodes** returns the items with content, in list order, on every kind of sequence. -/
@@ -183,13 +217,13 @@ theorem delslice_effect {s : Seq} (h : Reachable s) (a b c : Option Int) (sel : 
   exact ⟨s', h1, h2⟩
 
 /-- **The inherited mixins do what their names say** on every reachable sequence, through the repaired primitives:
-`reverse()` reverses the list, `clear()` empties it, `remove(x)` deletes the first occurrence of `x`; each leaves a
+`reverse()` reverses the list, `clear()` empties it, `remove(x)` deletes the first item that is `==` x; each leaves a
 reachable (index-consistent) sequence. -/
 theorem mixins_functional {s : Seq} (h : Reachable s) :
     (∃ s', reverse s = (s', none) ∧ s'.items = s.items.reverse) ∧
     (∃ s', clear s = (s', none) ∧ s'.items = []) ∧
-    (∀ x ∈ s.items, ∃ s', remove s x = (s', none) ∧
-      s'.items = s.items.take (s.items.idxOf x) ++ s.items.drop (s.items.idxOf x + 1)) := by
+    (∀ x, s.items.any (fun y => y.eqv x) = true → ∃ s', remove s x = (s', none) ∧
+      s'.items = s.items.take (s.items.findIdx (fun y => y.eqv x)) ++ s.items.drop (s.items.findIdx (fun y => y.eqv x) + 1)) := by
   refine ⟨?_, ?_, ?_⟩
   · obtain ⟨s', h1, h2, _⟩ := reverse_spec h.wf; exact ⟨s', h1, h2⟩
   · obtain ⟨s', h1, h2, _⟩ := clear_spec h.wf; exact ⟨s', h1, h2⟩
@@ -209,12 +243,28 @@ theorem mutators_are_regenerated_programs (s : Seq) :
     (∀ xs, extend s xs = runExtend xs s) ∧
     (∀ xs, step s (.iadd xs) = runIadd xs s) ∧
     (∀ pos x, SRContentSeq.insert s pos x = runInsert pos [x] s) ∧
+    (∀ x, insertBad s x = runInsertBad [x] s) ∧
     (∀ i x, setItem s i x = runSetitem (.int i) [x] s) ∧
     (∀ a b c xs, setSlice s a b c xs = runSetitem (.slice a b c) xs s) ∧
     (∀ i, delItem s i = runDelitem (.int i) s) ∧
     (∀ a b c, delSlice s a b c = runDelitem (.slice a b c) s) :=
   ⟨construct_is_program, append_is_program s, extend_is_program s, iadd_is_program s, insert_is_program s,
-   setItem_is_program s, setSlice_is_program s, delItem_is_program s, delSlice_is_program s⟩
+   insertBad_is_program s, setItem_is_program s, setSlice_is_program s, delItem_is_program s, delSlice_is_program s⟩
+
+/-- **A refused `insert` leaves no trace**: with a position that is not an int (`insert(1.0, x)`) the regenerated
+program — list call before index update — ends in TypeError (or the rule's AttributeError) with list AND index as
+they were.  (With the index update first, as the code had it, `find` returned an item that is not in the list.) -/
+theorem insert_with_bad_position_leaves_state (s : Seq) (x : Item) :
+    (runInsertBad [x] s).1.items = s.items ∧ (runInsertBad [x] s).1.lut = s.lut ∧ (runInsertBad [x] s).2.isSome = true := by
+  rw [← insertBad_is_program]
+  unfold insertBad
+  cases insertCheck s x <;> exact ⟨rfl, rfl, rfl⟩
+
+/-- **The method set of the class is the modelled one**: every method `ContentSequence` defines itself (regenerated
+list) is one the model has (a new override — `sort`, `pop`, `remove`, … — breaks this and must be modelled). -/
+theorem method_set_pinned :
+    Gen.csMethods = ["__contains__", "__delitem__", "__iadd__", "__init__", "__iter__", "__setitem__", "_check_dataset",
+      "append", "extend", "find", "from_sequence", "get_nodes", "index", "insert", "is_root", "is_sr"] := by decide
 
 theorem queries_are_regenerated_programs (s : Seq) :
     (∀ n, find s n = execCollect Gen.csProg_find s n) ∧
@@ -241,8 +291,9 @@ theorem store_interpretation_refines_model (σ : Store) (q : HSeq) (hw : Wf σ q
     Good σ q (hStep σ q op).1.1 (hStep σ q op).1.2 :=
   hStep_refines σ q hw op
 
-/-- **Non-interference**: in a pool of sequences that share no list, any operation on member `i` (accepted or
-refused) leaves every other member's functional view — its list AND its index, hence every `find`, `index`, `in`,
+/-- **Non-interference**: in a pool of sequences that share no list, any of the eight primitive operations
+(`HOp`: append, extend, +=, insert, item / slice assignment, item / slice deletion; the mixins pop / remove / reverse /
+clear are compositions of these) on member `i` (accepted or refused) leaves every other member's functional view — its list AND its index, hence every `find`, `index`, `in`,
 `get_nodes` — exactly as it was, and the pool still shares nothing. -/
 theorem non_interference (σ : Store) (pool : List HSeq) (hp : PoolWf σ pool) (i : Nat) (q : HSeq)
     (hi : pool[i]? = some q) (op : HOp) :
@@ -271,8 +322,8 @@ theorem construction_from_a_sequence_is_independent (σ : Store) (pool : List HS
   obtain ⟨h3, h4⟩ := pool_add hp g
   exact ⟨σ', q', h1, h2, h3, h4⟩
 
-private def ia : Item := { name := 0, rel := some 0, isContainer := false, hasContent := false, uid := 1 }
-private def ib : Item := { name := 0, rel := some 0, isContainer := false, hasContent := false, uid := 2 }
+private def ia : Item := { name := 0, rel := some 0, isContainer := false, hasContent := false, uid := 1, obj := 1 }
+private def ib : Item := { name := 0, rel := some 0, isContainer := false, hasContent := false, uid := 2, obj := 2 }
 private def σ0 : Store := { heap := fun k => if k = 0 then [ia] else [], next := 1 }
 private def q1 : HSeq := { items := [ia], lut := fun n => if n = 0 then some 0 else none, isRoot := false, isSr := true }
 
@@ -290,7 +341,7 @@ end Pool
 /-! ## Non-vacuity: a concrete history with colliding names on a non-root SR sequence
 (construct [a0, b1], insert c0 in front, extend [d1, e0], assign position 1, delete a slice, reverse). -/
 
-private def it (n u : Nat) : Item := { name := n, rel := some 0, isContainer := false, hasContent := u % 2 == 0, uid := u }
+private def it (n u : Nat) : Item := { name := n, rel := some 0, isContainer := false, hasContent := u % 2 == 0, uid := u, obj := u }
 private def s0 : Seq := { items := [it 0 1, it 1 2], lut := lutAddAll emptyLut [it 0 1, it 1 2], isRoot := false, isSr := true }
 private def hist : List Op :=
   [.insert 0 (it 0 3), .extend [it 1 4, it 0 5], .setItem 1 (it 1 6), .delSlice none none (some 2),
